@@ -70,6 +70,8 @@ def run_schedule(sched, interval, events, values0, burn=None, dns=0):
                 box["svc"].client_unsubscribed(sub_obj([inp["ep"]]), sdenv.ADDR["a1"])
             elif op == "eg_set":
                 box["eg"].values[inp["ev"]] = bytes([inp["val"]])
+            elif op == "eg_replace":      # the application assigns a whole new mapping to the public attribute
+                box["eg"].values = {e: bytes([v]) for e, v in inp["vals"]}
             elif op == "eg_notify":
                 evs = list(inp["evs"])
                 form = inp.get("form", "list")
@@ -144,6 +146,28 @@ def crowd_traces():
     return out
 
 
+def replace_traces():
+    """the application replaces `values` as a whole (other keys, other order) at the beginning of a tick of its own -- before the first
+    cyclic round, in the tick of a round, between two rounds; afterwards a further subscriber (initial notification with the new
+    events), an update of a new event and several more rounds"""
+    out = []
+    for interval in (2, 3):
+        for vals in ([[1, 11], [2, 12], [3, 13]], [[2, 12]], [[2, 12], [1, 11]], [[3, 13]], [[1, 11], [2, 12]]):
+            for t_rep in (1, interval, interval + 1, 2 * interval):
+                for n_before in (1, 2):
+                    sched = [{"t": 0, "j": 0, "op": "eg_create"}, {"t": 0, "j": 1, "op": "eg_sub", "ep": "e1"}]
+                    if n_before == 2:
+                        sched.append({"t": 0, "j": 2, "op": "eg_sub", "ep": "e2"})
+                    sched.append({"t": t_rep, "j": 0, "op": "eg_replace", "vals": vals})
+                    sched.append({"t": t_rep + 1, "j": 1, "op": "eg_set", "ev": vals[-1][0], "val": 99})
+                    sched.append({"t": t_rep + 2, "j": 1, "op": "eg_sub", "ep": "e3"})
+                    sched.append({"t": t_rep + 2 + 2 * interval, "j": 1, "op": "eg_unsub", "ep": "e1"})
+                    ev = run_schedule(sched, interval, EVENTS, {1: 7, 2: 9})
+                    out.append({"cfg": mon_cfg(interval), "ev": monpass.add_adv(ev), "sched": sched, "interval": interval, "burn": {}, "dns": 0,
+                                "diag": {"interval": interval, "family": "values replaced as a whole at t=%d: %s" % (t_rep, vals)}})
+    return out
+
+
 def mon_cfg(interval):
     return {"events": EVENTS, "values0": [7, 9], "interval": interval, "svc": SVC_ID, "major": MAJOR, "maxId": 65535}
 
@@ -181,7 +205,8 @@ def check(ctx):
     m1.holds("cyclic rounds", "C17_quick.cfg", dict({"C17_X": "C17_C", "C17_InputsX": "C17_InputsC"}, **({} if ctx.quick else {"MaxEv = 4": "MaxEv = 6"})), timeout=3000)
     m1.caught("SwOneShot", "C17_quick.cfg")
     traces = traces_for(ctx.seed, ctx.pick(400, 6000), ctx.pick(9, 14))
-    bad, ms = judge(ctx, "Mon_C17", traces + crowd_traces(), "eventgroup histories", payload)
+    rep = replace_traces()
+    bad, ms = judge(ctx, "Mon_C17", traces + crowd_traces() + rep, "eventgroup histories", payload)
     # "a per-destination session id": one endpoint subscribed to two eventgroups of the service (judged by the session-id monitor of C08)
     from . import c08
     two = c08.two_group_traces()
@@ -197,6 +222,7 @@ def check(ctx):
     for interval in (0, 2, 3):
         plain = [t for t in traces if t["interval"] == interval and not any(t["burn"].values()) and not t["dns"]
                  and all(i["op"] != "eg_badsub" for i in t["sched"])][: ctx.pick(40, 300)]
+        plain += [t for t in rep if t["interval"] == interval][: ctx.pick(12, 40)]
         a, t, _ = conformance(ctx, "SDTrace", spec_consts(interval), plain)
         acc += a
         total += t
@@ -206,7 +232,7 @@ def check(ctx):
                samples=[{"interval": traces[0]["interval"], "schedule": traces[0]["sched"][:8], "trace": traces[0]["ev"][:16]}],
                rule="TLC: SimpleEventgroup of SD.tla (endpoint set, has_clients, initial / explicit / cyclic notification tasks "
                     "with their hop structure, per-destination session ids) x Mon_C17 for all schedules of 4(-5) operations; "
-                    "real code: subscribe / unsubscribe from IPv4 and IPv6 endpoints, value updates, notify_once with list / "
+                    "real code: subscribe / unsubscribe from IPv4 and IPv6 endpoints, value updates in place and by replacing the mapping (other keys, other order), notify_once with list / "
                     "tuple / iterator / generator / dict view, cyclic intervals 2 and 3, refused subscriptions (0 or 2 "
                     "endpoints, unknown eventgroup), session counters pre-advanced next to the wrap, address resolution that "
                     "suspends the sender for 0-3 loop iterations")
